@@ -22,6 +22,9 @@ fn element_exprs() -> gen::VS {
         1 => Just(json!({"cat": ["<", {"var": ""}, ">"]})),
         1 => Just(json!({">": [{"var": ""}, 1]})),
         1 => Just(json!({"!!": [{"var": ""}]})),
+        // predicates that tell a scalar from the string that spells it
+        1 => select(vec![json!(1), json!("1"), Value::Null, json!("null"), json!(true), json!("true"), json!(0), json!("0"), json!(1.5), json!("1.5")]).prop_map(|x| json!({"===": [{"var": ""}, x]})),
+        1 => select(vec![json!(1), json!("1"), json!(0), json!("")]).prop_map(|x| json!({"!==": [x, {"var": ""}]})),
         1 => Just(json!({"map": [{"var": ""}, {"var": ""}]})),
         1 => Just(json!({"filter": [{"var": ""}, {"var": ""}]})),
         1 => Just(json!({"reduce": [{"var": ""}, {"cat": [{"var": "accumulator"}, {"var": "current"}]}, "|"]})),
@@ -35,6 +38,8 @@ fn element_exprs() -> gen::VS {
         1 => Just(json!({"var": [{"var": "pick"}, "no-pick"]})),
         1 => Just(json!({"var": {"cat": ["v_", {"var": "pick"}]}})),
         1 => Just(json!({"missing": [{"var": "pick"}, "a"]})),
+        1 => Just(json!({"missing": {"merge": ["a", {"if": [{"var": "b"}, ["v_a"], []]}]}})),
+        1 => Just(json!({"missing_some": [{"+": [{"var": "a"}, 0]}, ["b", "v_a", "zz"]]})),
         // decisions that depend on the element only through missing / missing_some
         1 => Just(json!({"if": [{"missing": ["a"]}, "incomplete", "ok"]})),
         1 => Just(json!({"and": [{"missing": ["a"]}, true]})),
@@ -67,8 +72,14 @@ fn reduce_exprs() -> gen::VS {
     .boxed()
 }
 
+/// scalars together with the strings that spell them (and other twin spellings)
+pub fn twin_scalars() -> gen::VS {
+    select(vec![json!(1), json!("1"), json!(1.0), json!(0), json!("0"), json!(""), Value::Null, json!("null"), json!(true), json!("true"), json!(false), json!("false"), json!(1.5), json!("1.5"), gen::f(-0.0), json!("-0"), json!(2), json!("2")]).boxed()
+}
+
 fn elements() -> gen::VS {
     prop_oneof![
+        3 => twin_scalars(),
         4 => gen::scalars(),
         2 => gen::small_ints(),
         2 => Just(json!({"a": 1, "b": 2})),
@@ -231,6 +242,26 @@ fn gen_big_sums() -> BoxedStrategy<Value> {
     }).boxed()
 }
 
+/// collections far longer than any small-size fast path (64, 256 ... elements) drawn from a few twin scalars
+fn gen_long_collections() -> BoxedStrategy<Value> {
+    let pred = prop_oneof![
+        2 => Just(json!({"var": ""})),
+        2 => select(vec![json!(1), json!("1"), json!(0), json!("0"), Value::Null, json!("null")]).prop_map(|x| json!({"===": [{"var": ""}, x]})),
+        1 => Just(json!({"!": [{"var": ""}]})),
+        1 => Just(json!({"cat": ["<", {"var": ""}, ">"]})),
+        1 => Just(json!({"+": [{"var": ""}, 1]})),
+    ];
+    let red = select(vec![json!({"cat": [{"var": "accumulator"}, {"var": "current"}, ";"]}), json!({"+": [{"var": "accumulator"}, {"if": [{"===": [{"var": "current"}, 1]}, 1, 0]}]}), json!({"merge": [{"var": "accumulator"}, [{"var": "current"}]]})]);
+    (select(vec!["map", "filter", "reduce"]), vec(twin_scalars(), 2..=6), select(vec![63usize, 64, 65, 70, 100, 127, 128, 129, 255, 256, 257, 300]), pred, red, any::<bool>())
+        .prop_map(|(op, pool, n, p, r, literal)| {
+            let xs: Vec<Value> = (0..n).map(|i| pool[(i * 7 + i / 3) % pool.len()].clone()).collect();
+            let data = json!({"xs": xs, "outer": "OUTER"});
+            let coll = if literal { Value::Array(xs) } else { json!({"var": "xs"}) };
+            json!({"op": op, "coll": coll, "expr": if op == "reduce" { r.clone() } else { p }, "init": if op == "reduce" { if r.get("+").is_some() { json!(0) } else if r.get("merge").is_some() { json!([]) } else { json!("") } } else { Value::Null }, "data": data, "kind": "long collection"})
+        })
+        .boxed()
+}
+
 fn gen_hof() -> BoxedStrategy<Value> {
     (select(vec!["map", "filter", "reduce", "reduce"]), collections(), element_exprs(), reduce_exprs(), prop_oneof![2 => gen::scalars(), 1 => Just(json!({"var": "outer"})), 1 => Just(json!({"cat": ["i", "n"]})), 1 => Just(json!([])), 1 => Just(json!({"var": "xs"}))])
         .prop_map(|(op, (coll, data, kind), e, re, init)| json!({"op": op, "coll": coll, "expr": if op == "reduce" { re } else { e }, "init": init, "data": data, "kind": kind}))
@@ -264,6 +295,18 @@ pub fn property() -> Property {
                 check: check_hof,
                 quick: 200_000,
                 thorough: 10_000_000,
+                small_stack: false,
+            },
+            Sub {
+                name: "long_collections",
+                about: "map / filter / reduce over collections of 63-300 elements cycling through 2-6 twin scalars (1 / \"1\" / 1.0, 0 / \"0\" / \"\", null / \"null\", true / \"true\" ...), literal and computed, with identity, strict-equality, negation, cat and arithmetic expressions: model and the element-by-element laws - no size threshold, no per-element shortcut keyed on a string form.",
+                nontrivial: "every case.",
+                strategy: Some(gen_long_collections),
+                fixed: None,
+                fixed_exhaustive: false,
+                check: check_hof,
+                quick: 3_000,
+                thorough: 150_000,
                 small_stack: false,
             },
             Sub {
